@@ -328,9 +328,9 @@ def join_blocks(tier, heavy=False):
         ('2key-full', POOL2_FULL, 3, 2, KINDS2, 'rotate-kind'),
         ('2key-full', POOL2_FULL, 2, 3, KINDS2, 'rotate-kind'),
         ('3key-pool4', POOL3_4, 3, 3, KINDS3, 1),
-        ('1key-hashcollide', POOL1, 4, 4, KINDS1_HC, 1),
+        ('1key-hashcollide', POOL1, 4, 4, KINDS1_HC, 'rotate-kind'),
         ('1key-hashcollide-3values', POOL1_3V, 3, 3, KINDS1_HC, 2),
-        ('2key-hashcollide', POOL2_5, 3, 3, KINDS2_HC, 1),
+        ('2key-hashcollide', POOL2_5, 3, 3, KINDS2_HC, 'rotate-kind'),
         ('2key-hashcollide', POOL2_FULL, 2, 2, KINDS2_HC, 1),
         ('3key-hashcollide', POOL3_4, 3, 3, KINDS3_HC, 1),
     ]
@@ -497,11 +497,37 @@ class AggSetup:
         return (view(self.T), tuple(view(o) for o in ov if isinstance(o, Vector)))
 
 
-def agg_tables(nk, key_pool, max_rows, min_rows=0):
-    per_row = [list(k) + [v] for k in key_pool for v in VAL_POOL]
+def agg_tables(nk, key_pool, max_rows, min_rows=0, val_pool=None, shape=None):
+    val_pool = VAL_POOL if val_pool is None else val_pool
+    if shape == 'single-row-groups':
+        # every row is a group of its own: row i has key key_pool[i] (distinct), any value
+        for n in range(max(1, min_rows), min(max_rows, len(key_pool)) + 1):
+            for start in range(len(key_pool)):
+                ks = [key_pool[(start + i) % len(key_pool)] for i in range(n)]
+                for combo in itertools.product(val_pool, repeat=n):
+                    yield [list(k) + [v] for k, v in zip(ks, combo)]
+        return
+    per_row = [list(k) + [v] for k in key_pool for v in val_pool]
     for n in range(min_rows, max_rows + 1):
         for combo in itertools.product(per_row, repeat=n):
             yield [list(r) for r in combo]
+
+
+# keys that differ but collide in hash (see KIND_POOL): alone and inside a composite key
+POOL1_HCA = [(None,), (-1,), (-2,)]
+POOL1_HCB = [(None,), (0,), (MERSENNE61,)]
+POOL2_HC = [(-1, 0), (-2, 0), (-1, MERSENNE61), (None, 0)]
+POOL0 = [()]                                  # over=[]: zero partition keys, one whole-table partition
+POOL1_DISTINCT = [(0,), (None,), (1,), (2,)]
+BOOL_VALS = [None, True, False]
+NONE_VALS = [None]
+EXTRA_AGG_BLOCKS = {
+    # label: options (value pool, result-dtype check, table shape)
+    'bool-values': {'val_pool': BOOL_VALS, 'dtypes': True},
+    'all-None-values': {'val_pool': NONE_VALS, 'dtypes': True},
+    '2key-bool-values': {'val_pool': BOOL_VALS, 'dtypes': True},
+    'single-row-groups': {'shape': 'single-row-groups', 'dtypes': True},
+}
 
 
 MODES = ['name', 'col', 'ext']
@@ -523,40 +549,62 @@ def agg_blocks(tier, heavy=False):
                 ('1key-4rows', 1, POOL1, 4, 4, 'rot'),
                 ('2key-pool4', 2, POOL2_4, 0, 3, 'full'),
                 ('2key-full', 2, POOL2_FULL, 0, 2, 'rot'),
-            ]
+            ] + extra_agg_blocks(tier, heavy)
         return [
             ('1key', 1, POOL1, 0, 3, 'full+rot'),
             ('1key-4rows', 1, POOL1, 4, 4, 'rot'),
             ('1key-subsets', 1, POOL1, 0, 2, 'subsets-light'),
             ('2key-pool4', 2, POOL2_4, 0, 3, 'full'),
             ('2key-full', 2, POOL2_FULL, 0, 2, 'full+rot'),
-        ]
+        ] + extra_agg_blocks(tier)
     if heavy:
         return [
             ('1key', 1, POOL1, 0, 4, 'full+rot'),
             ('1key-subsets', 1, POOL1, 0, 2, 'subsets'),
             ('2key-pool5', 2, POOL2_5, 0, 4, 'rot'),
             ('2key-full', 2, POOL2_FULL, 0, 3, 'full'),
-        ]
+        ] + extra_agg_blocks(tier)
     return [
         ('1key', 1, POOL1, 0, 4, 'full+rot'),
         ('1key-subsets', 1, POOL1, 0, 3, 'subsets-light'),
         ('1key-subsets', 1, POOL1, 0, 2, 'subsets'),
         ('2key-pool5', 2, POOL2_5, 0, 4, 'full+rot'),
         ('2key-full', 2, POOL2_FULL, 0, 3, 'full+rot'),
+    ] + extra_agg_blocks(tier)
+
+
+def extra_agg_blocks(tier, heavy=False):
+    """Blocks shared by C12 and C13: hash-colliding keys, zero partition keys (over=[]), bool and
+    all-None value columns (with the result-dtype check), groups of exactly one row."""
+    q = tier == 'quick'
+    return [
+        ('1key-hashcollide-neg', 1, POOL1_HCA, 0, 3 if q else 4, 'full'),
+        ('1key-hashcollide-mersenne', 1, POOL1_HCB, 0, 3 if q else 4, 'full'),
+        ('2key-hashcollide', 2, POOL2_HC, 0, 2 if q else 3, 'full'),
+    ] + ([] if q and heavy else [('2key-hashcollide', 2, POOL2_HC, 3, 3, 'rot') if q else ('2key-hashcollide', 2, POOL2_HC, 4, 4, 'rot')]) + [
+        ('0key', 0, POOL0, 1, 4 if q else 6, 'full+rot'),
+        ('bool-values', 1, POOL1, 0, 3 if q else 4, 'full'),
+        ('all-None-values', 1, POOL1, 0, 4 if q else 6, 'full+rot'),
+        ('2key-bool-values', 2, POOL2_3, 0, 2 if q else 3, 'full'),
+        ('single-row-groups', 1, POOL1_DISTINCT, 1, 3 if q else 4, 'full+rot'),
     ]
 
 
 def agg_cases(tier, op, heavy=False):
     for label, nk, pool, lo, hi, plan in agg_blocks(tier, heavy):
         idx = 0
-        for rows in agg_tables(nk, pool, hi, lo):
+        opts = EXTRA_AGG_BLOCKS.get(label, {})
+        for rows in agg_tables(nk, pool, hi, lo, opts.get('val_pool'), opts.get('shape')):
             idx += 1
             base = {'op': op, 'block': label, 'nk': nk, 'rows': rows}
+            if opts.get('dtypes'):
+                base['dtypes'] = True
             if plan in ('full', 'full+rot'):
                 yield dict(base, mode=MODES[idx % 3], aggs=list(AGGS), apply=True)
             if plan in ('full+rot', 'rot'):
                 sub = ALL_SUBSETS[idx % 64]
+                if nk == 0 and not sub and not (idx // 64) % 2:
+                    continue        # no key column and no aggregate: a table without columns has no rows to speak of
                 yield dict(base, mode=MODES[(idx // 3) % 3], aggs=list(sub), apply=bool((idx // 64) % 2))
             if plan == 'subsets':
                 for m, sub in enumerate(ALL_SUBSETS):
@@ -568,14 +616,19 @@ def agg_cases(tier, op, heavy=False):
 
 
 def agg_bound(tier, heavy=False):
-    return {'blocks': [{'label': b[0], 'key_columns': b[1], 'key_tuples_in_pool': len(b[2]), 'rows': [b[3], b[4]],
-                        'plan': b[5]} for b in agg_blocks(tier, heavy)],
+    return {'blocks': [dict({'label': b[0], 'key_columns': b[1], 'key_tuples_in_pool': len(b[2]), 'rows': [b[3], b[4]],
+                             'plan': b[5]}, **{k: repr(v) for k, v in EXTRA_AGG_BLOCKS.get(b[0], {}).items()})
+                       for b in agg_blocks(tier, heavy)],
             'value_pool': [repr(v) for v in VAL_POOL], 'key_modes': MODES}
 
 
 def agg_signature(case):
     if case.get('op') == 'whole':
         return ('whole', len(case['vals']), sum(v is None for v in case['vals']))
+    if case.get('op') == 'repeat':
+        return ('repeat', case['target'], case['variant'], len(case['steps']), len(case['steps'][0][0]))
+    if case.get('op') == 'precision':
+        return ('precision', case['family'], case['layout'], len(case['vals']), sum(v is None for v in case['vals']))
     nk = case['nk']
     keys = [tuple(r[:nk]) for r in case['rows']]
     vals = [r[nk] for r in case['rows']]
@@ -584,8 +637,11 @@ def agg_signature(case):
     order, rows = group_by_hand(keys)
     interleaved = any(r[-1] - r[0] + 1 != len(r) for r in rows)
     allnone_group = any(all(vals[i] is None for i in r) for r in rows)
-    return (nk, case['mode'], len(keys), len(order), interleaved, allnone_group,
-            any(None in k for k in keys), tuple(case['aggs']), case['apply'])
+    sig = (nk, case['mode'], len(keys), len(order), interleaved, allnone_group,
+           any(None in k for k in keys), tuple(case['aggs']), case['apply'])
+    if case['block'] in EXTRA_AGG_BLOCKS or 'hashcollide' in case['block']:
+        sig += (case['block'],)
+    return sig
 
 
 def out_column(res, name):
@@ -593,6 +649,258 @@ def out_column(res, name):
     if name not in names:
         return None
     return list(res.cols()[names.index(name)]._underlying)
+
+
+def agg_site(op, case):
+    """Call-site name used in failure keys: input families that expose defects of their own
+    (zero partition keys, hash-colliding keys) get their own site."""
+    if case.get('nk') == 0:
+        return op + '-zero-keys'
+    if 'hashcollide' in case.get('block', ''):
+        return op + '-hash-colliding-keys'
+    return op
+
+
+def schema_sig(v):
+    dt = v.schema()
+    return None if dt is None else (dt.kind.__name__, dt.nullable)
+
+
+def check_result_dtype(pid, op, agg, colvec, want_values, fails, descr):
+    """Result columns are ordinary inferred columns: the dtype of an aggregate column is what
+    Vector(<its values>) infers - e.g. the sum / count of a bool column is an int column, its
+    min / max a bool column, an all-None result an untyped nullable column."""
+    got = schema_sig(colvec)
+    own = schema_sig(Vector(list(colvec._underlying)))
+    want = schema_sig(Vector(list(want_values)))
+    if got != own:
+        fails.append(Fail(f'{pid}:{op}:{agg}:result-dtype-not-inferred',
+                          f'{descr}: column {colvec._name!r} holds {list(colvec._underlying)!r} but declares {got}; '
+                          f'Vector(values).schema() is {own}', own, got))
+    elif got != want:
+        fails.append(Fail(f'{pid}:{op}:{agg}:result-dtype',
+                          f'{descr}: column {colvec._name!r} has dtype {got}; the textbook values {list(want_values)!r} make a {want} column',
+                          want, got))
+
+
+def named_column(res, name):
+    names = list(res.column_names())
+    return res.cols()[names.index(name)] if name in names else None
+
+
+# ---- expected output of aggregate()/window() as plain columns, and a differ ----
+def expected_output(op, keys, vals, aggs, apply):
+    """(key rows, {column name: values}) of aggregate / window for one key column set."""
+    order, grows = group_by_hand(keys)
+    per_group = {}
+    for a in aggs:
+        per_group[f'v_{a}'] = [textbook(a, [vals[i] for i in rows]) for rows in grows]
+    if apply:
+        per_group['rec'] = [apply_value([vals[i] for i in rows]) for rows in grows]
+    if op == 'aggregate':
+        return list(order), per_group
+    group_of = [next(g for g, k in enumerate(order) if k == key) for key in keys]
+    return list(keys), {name: [col[g] for g in group_of] for name, col in per_group.items()}
+
+
+def diff_output(res, nk, keyrows, cols):
+    """None when `res` is the expected table; otherwise a stable class name."""
+    if len(res.cols()) != nk + len(cols):
+        return 'column-count'
+    n = len(keyrows)
+    if len(res) != n or any(len(c._underlying) != n for c in res.cols()):
+        return 'row-count'
+    got_keys = [tuple(list(c._underlying)[i] for c in res.cols()[:nk]) for i in range(n)]
+    if not rows_same(got_keys, keyrows):
+        return 'key-columns'
+    for name, want in cols.items():
+        col = out_column(res, name)
+        if col is None:
+            return 'missing-column'
+        if name == 'rec':
+            if col != want:
+                return 'apply-values'
+        elif not all(close(a, b) for a, b in zip(col, want)):
+            return 'values'
+    return None
+
+
+# ---- repeated calls on ONE table object (no stale partition / cached column content) ----
+REPEAT_AGGS = ['sum', 'count', 'min', 'max', 'mean']
+REPEAT_VARIANTS = ['ext', 'view-name', 'view-col', 'view-val']
+
+
+def repeat_cases(tier, op, variants=None):
+    """Histories: a table is built once and aggregate()/window() is called on it several times.
+      'ext'       each call gets a NEW external key Vector (created, used, dropped: the next one is
+                  likely to live at the same address) with other keys;
+      'view-name' the key column is overwritten cell by cell through its live view (t.k[i] = x)
+                  between the calls, key given by name;   'view-col': ... key given as t.cols()[0];
+      'view-val'  the VALUE column is overwritten through its live view between the calls.
+    Every call must reflect the keys / values of its own moment."""
+    variants = variants or REPEAT_VARIANTS
+    kv3 = [list(c) for c in itertools.product([0, 1, None], repeat=3)]
+    vv3 = [list(c) for c in itertools.product(VAL_POOL, repeat=3)]
+    base_vals = [[1, 2.5, None], [2.5, 1, 1]]
+    idx = 0
+    for variant in variants:
+        if variant == 'view-val':
+            pairs = [([[0, 1, 0], a], [[0, 1, 0], b]) for a in vv3 for b in vv3 if a != b]
+        else:
+            pairs = [([a, base_vals[0]], [b, base_vals[0]]) for a in kv3 for b in kv3 if a != b]
+        for p in pairs:
+            idx += 1
+            if tier == 'quick' and variant in ('view-col', 'view-val') and idx % 3:
+                continue
+            # external vectors: the address of a dropped vector is reused by the next one, or by the
+            # one after it, depending on the allocator's state - so the second key vector is used by
+            # three consecutive (new) vectors, each of which must be grouped by ITS keys
+            yield {'op': 'repeat', 'target': op, 'variant': variant,
+                   'steps': [p[0], p[1], p[1], p[1]] if variant == 'ext' else [p[0], p[1]]}
+    # long runs: every key vector once, in three orders, then the 4-row vectors
+    kv4 = [list(c) for c in itertools.product([0, 1, None], repeat=4)]
+    runs = [kv3, kv3[::-1], kv3[::2] + kv3[1::2], kv4[::-1]] + ([kv4, kv4[::3] + kv4[1::3] + kv4[2::3]] if tier != 'quick' else [])
+    for run in runs:
+        for variant in variants:
+            if variant == 'view-val':
+                continue
+            for vals in base_vals:
+                vals = (vals + [2.5])[:len(run[0])]
+                yield {'op': 'repeat', 'target': op, 'variant': variant, 'steps': [[k, vals] for k in run]}
+
+
+def eval_repeat(pid, case):
+    """Runs one history.  A step is reported only when its result differs from the oracle although
+    the SAME call on a freshly built table / key vector gives the oracle's result - i.e. when the
+    outcome depends on the history (single calls are the subject of the other blocks)."""
+    op, variant, steps = case['target'], case['variant'], case['steps']
+    n = len(steps[0][0])
+    family = 'external-key-vectors' if variant == 'ext' else 'value-column-written-through-view' if variant == 'view-val' \
+        else 'key-column-written-through-view'
+    descr0 = f'{op}() called repeatedly on one table ({variant}, {len(steps)} calls, {n} rows)'
+    aggs = REPEAT_AGGS
+    kw_names = {f'{a}_over': 'v' for a in aggs}
+
+    def call(table, over):
+        log = []
+        return getattr(table, op)(over, apply={'rec': ('v', apply_fn_factory(log))}, **kw_names)
+
+    def build(keys, vals, with_key):
+        cols = [Vector(list(vals), dtype=DataType(float, True), name='v')]
+        if with_key:
+            cols = [Vector(list(keys), dtype=DataType(int, True), name='k')] + cols
+        return Table(cols)
+
+    try:
+        T = build(steps[0][0], steps[0][1], variant != 'ext')
+        kview = T.k if variant != 'ext' else None
+        vview = T.v
+    except Exception as e:
+        return [Fail(f'{pid}:setup:raises:{type(e).__name__}', f'{descr0}: building the table raised {e!r}', None, repr(e))]
+    fails = []
+    dt_key = DataType(int, True)
+    k = Vector(list(steps[0][0]), dtype=dt_key, name='k') if variant == 'ext' else None
+    for si, (keys, vals) in enumerate(steps):
+        descr = f'{descr0}, call #{si + 1} with keys {keys} values {vals}' + (f' after a call with keys {steps[si - 1][0]} values {steps[si - 1][1]}' if si else '')
+        try:
+            if variant == 'ext':
+                over = k
+            else:
+                for i in range(n):
+                    if variant == 'view-val':
+                        vview[i] = vals[i]
+                    else:
+                        kview[i] = keys[i]
+                over = 'k' if variant in ('view-name', 'view-val') else T.cols()[0]
+                if list(T.cols()[0]._underlying) != list(keys):
+                    return fails      # the write did not take: not this property's business
+            stored = list(T.cols()[-1]._underlying)       # what the value column holds now
+            if stored != list(vals):
+                return fails
+            vals = stored
+        except Exception as e:
+            return fails + [Fail(f'{pid}:setup:raises:{type(e).__name__}', f'{descr}: preparing the call raised {e!r}', None, repr(e))]
+        keyrows, cols = expected_output(op, [(x,) for x in keys], vals, aggs, True)
+        try:
+            res = call(T, over)
+            cls = diff_output(res, 1, keyrows, cols)
+            shown = rows_of(res) if cls else None
+        except Exception as e:
+            cls, shown = f'raises:{type(e).__name__}', repr(e)
+        # drop the external key vector and create the next one right away (the pattern
+        # `k = Vector(..); t.aggregate(over=k); del k; k = Vector(other keys)`: the new vector is
+        # likely to be allocated where the old one lived)
+        nxt = list(steps[si + 1][0]) if variant == 'ext' and si + 1 < len(steps) else None
+        over = None
+        k = None
+        if nxt is not None:
+            k = Vector(nxt, dtype=dt_key, name='k')
+        if cls and si > 0:
+            try:
+                fresh = call(build(keys, vals, True), 'k')
+                fresh_ok = diff_output(fresh, 1, keyrows, cols) is None
+            except Exception:
+                fresh_ok = False
+            if fresh_ok:
+                fails.append(Fail(f'{pid}:{op}-repeated:{family}:stale-{cls}',
+                                  f'{descr}: the result does not reflect the current keys / values (a fresh table with the same '
+                                  f'content gives the expected result)', (keyrows, cols), shown, f'{pid}:{op}:post'))
+                return fails
+        if cls:
+            return fails          # wrong on a first / fresh call as well: a single-call defect (other blocks)
+    return fails
+
+
+# ---- stdev on values that are large relative to their spread ----
+PRECISION_FAMILIES = [
+    ('float-1e9-spread-1', [1e9 + 0.5, 1e9 + 1.0, 1e9 + 1.5]),
+    ('int-1.79e9-spread-2', [1790000001, 1790000002, 1790000003]),
+    ('float-1e5-spread-0.1', [100000.0, 100000.05, 100000.1]),
+]
+REL_TOL = 1e-9
+
+
+def exact_stdev(vals):
+    """Sample standard deviation of the non-None values from exact rational arithmetic."""
+    import math
+    from fractions import Fraction
+    nn = [Fraction(v) for v in vals if v is not None]
+    if len(nn) < 2:
+        return None
+    mu = sum(nn) / len(nn)
+    var = sum((x - mu) ** 2 for x in nn) / (len(nn) - 1)
+    return math.sqrt(var)
+
+
+def precise(got, ref, vals):
+    """Agreement at RELATIVE tolerance 1e-9 (a zero reference - all values equal - allows a residue
+    of 1e-12 of the values' magnitude, which the two-pass textbook formula stays far below)."""
+    if ref is None or got is None:
+        return ref is None and got is None
+    if isinstance(got, bool) or not isinstance(got, (int, float)) or got != got:
+        return False
+    if ref == 0:
+        return abs(got) <= 1e-12 * max(abs(v) for v in vals if v is not None)
+    return abs(got - ref) <= REL_TOL * ref
+
+
+def precision_cases(tier):
+    hi = 4 if tier == 'quick' else 5
+    for fam, pool in PRECISION_FAMILIES:
+        for n in range(2, hi + 1):
+            for combo in itertools.product(pool + [None], repeat=n):
+                for layout in ('one-group', 'two-groups'):
+                    if layout == 'two-groups' and n < 3:
+                        continue
+                    yield {'op': 'precision', 'family': fam, 'layout': layout, 'vals': list(combo)}
+
+
+def precision_groups(case):
+    """(keys, row lists per group in first-appearance order) of a precision case."""
+    n = len(case['vals'])
+    keys = [0] * n if case['layout'] == 'one-group' else [i % 2 for i in range(n)]
+    order, grows = group_by_hand([(k,) for k in keys])
+    return keys, grows
 
 
 # --------------------------------------------------------------------------------------
